@@ -286,6 +286,54 @@ func waitClient(wg *sync.WaitGroup, tr *wmTrace, g int, calls []WmCall, w *water
 	}
 }
 
+// runStampede: many goroutines wait for the same index and read DoneUntil immediately after
+// WaitForMark returned nil. The trace keeps one representative waiter (client 2) with the
+// smallest value any waiter observed: every waiter individually must see DoneUntil >= ts.
+func runStampede(id string, n int, ts int) ([]WmEvent, WmResult) {
+	w := watermark.New()
+	defer w.Stop()
+	res := WmResult{ID: id, Waits: n, Marks: 2}
+	ev := []WmEvent{{Ev: "Inv", G: 1, Kind: "b", Ts: ts}}
+	w.Begin(uint64(ts))
+	ev = append(ev, WmEvent{Ev: "Ret", G: 1, Res: "nil"}, WmEvent{Ev: "Inv", G: 2, Kind: "w", Ts: ts})
+	var wg sync.WaitGroup
+	seen := make([]int, n)
+	errs := make([]error, n)
+	started := make(chan struct{}, n)
+	for i := 0; i < n; i++ {
+		wg.Add(1)
+		go func(i int) {
+			defer wg.Done()
+			ctx, cancel := context.WithTimeout(context.Background(), 20*time.Second)
+			defer cancel()
+			started <- struct{}{}
+			errs[i] = w.WaitForMark(ctx, uint64(ts))
+			seen[i] = int(w.DoneUntil())
+		}(i)
+	}
+	for i := 0; i < n; i++ {
+		<-started
+	}
+	time.Sleep(2 * time.Millisecond)
+	ev = append(ev, WmEvent{Ev: "Inv", G: 1, Kind: "d", Ts: ts})
+	w.Done(uint64(ts))
+	ev = append(ev, WmEvent{Ev: "Ret", G: 1, Res: "nil"})
+	wg.Wait()
+	vmin := seen[0]
+	for i := range seen {
+		if errs[i] != nil {
+			res.Stuck = "a waiter did not return although the mark reached its index"
+		}
+		if seen[i] < vmin {
+			vmin = seen[i]
+		}
+	}
+	ev = append(ev, WmEvent{Ev: "Ret", G: 2, Res: "nil"}, WmEvent{Ev: "Obs", V: vmin}, WmEvent{Ev: "Quiesce", V: int(w.DoneUntil())})
+	res.FinalDu = int(w.DoneUntil())
+	res.Events = len(ev)
+	return ev, res
+}
+
 func genWmScenario(r *rand.Rand, id string, mode string) WmScenario {
 	s := WmScenario{ID: id, Mode: mode, Seed: r.Int63()}
 	s.NIdx = 3 + r.Intn(3)
@@ -376,6 +424,13 @@ func cmdWm(args []string) int {
 			scen = append(scen, genWmScenario(r, fmt.Sprintf("wm-%s-%d-%d", *mode, *seed, i), *mode))
 		}
 	}
+	if *mode == "stampede" {
+		scen = scen[:0]
+		for i := 0; i < *n; i++ {
+			scen = append(scen, WmScenario{ID: fmt.Sprintf("wm-stampede-%d-%d", *seed, i), Mode: "stampede", Procs: 2, NIdx: 4})
+		}
+		*par = 1
+	}
 	evs := make([][]WmEvent, len(scen))
 	results := make([]WmResult, len(scen))
 	var wg sync.WaitGroup
@@ -386,6 +441,10 @@ func cmdWm(args []string) int {
 		go func(i int) {
 			defer wg.Done()
 			defer func() { <-sem }()
+			if scen[i].Mode == "stampede" {
+				evs[i], results[i] = runStampede(scen[i].ID, 400, 1+i%3)
+				return
+			}
 			evs[i], results[i] = runWm(scen[i])
 		}(i)
 	}
